@@ -44,7 +44,7 @@ Inductive cstep := SVal (o : cop) | SRaw (r : rop) (v : option Z) (att : bool) |
 Record ccase := mkccase {
   cc_fixed : bool;          (* does the tree under test contain the D11 repair (probed by the harness) *)
   cc_late : bool;           (* does it still flip the braces before consuming the node (probed) *)
-  cc_listed : bool;         (* the initial text is one of the forms the property quantifies over *)
+  cc_listed : bool;         (* the observed initial state is normal (computed by the harness) *)
   cc_init : cost;           (* as parsed by the real Parser *)
   cc_init_getters : spec;
   cc_steps : list (cstep * cobs) }.
@@ -56,19 +56,25 @@ Definition do_step (fixed late : bool) (s : cost) (st : cstep) : cost * res unit
   | SCost c att => set_raw_cost att s c
   end.
 
-Fixpoint run_csteps (fixed late : bool) (s : cost) (steps : list (cstep * cobs)) : bool :=
+(* [inv]: the walk is in the scope of the theorems (normal origin, or after a whole-cost assignment of a
+   normal cost): then every state the implementation showed must be normal again (C09_cost_refines) *)
+Fixpoint run_csteps (fixed late inv : bool) (s : cost) (steps : list (cstep * cobs)) : bool :=
   match steps with
   | [] => true
   | (o, ob) :: r =>
     let '(s', x) := do_step fixed late s o in
+    let inv' := match o with SCost c false => normal_b c | _ => inv end in
     (res_code x =? co_res ob) && cost_eqb s' (co_state ob) && spec_eqb (abs s') (co_getters ob)
-    && run_csteps fixed late s' r
+    && (if inv' then normal_b (co_state ob) else true)
+    && run_csteps fixed late inv' s' r
   end.
 
+(* cc_listed is the harness's own computation of "normal" on the observed initial state: it must agree
+   with normal_b *)
 Definition check_ccase (c : ccase) : bool :=
-  (if cc_listed c then normal_b (cc_init c) else true)
+  Bool.eqb (cc_listed c) (normal_b (cc_init c))
   && spec_eqb (abs (cc_init c)) (cc_init_getters c)
-  && run_csteps (cc_fixed c) (cc_late c) (cc_init c) (cc_steps c).
+  && run_csteps (cc_fixed c) (cc_late c) (cc_listed c) (cc_init c) (cc_steps c).
 
 (* diagnosis *)
 Fixpoint model_ctrace (fixed late : bool) (s : cost) (ops : list cstep) : list (Z * cost) :=
@@ -112,3 +118,50 @@ Definition check_tcase (c : tcase) : bool :=
   let '(c0, c1, c2) := tc_children c in
   let t := from_parsed c0 c1 c2 in
   tri_eqb (tri_of t) (tc_init c) && tinv_b t && run_tsteps t (tc_steps c).
+
+(* value properties over slots (Txn.v, Section ValueProps): texts are code-point lists; the codec of a
+   slot is the table of (slot, value code, text) the harness obtained from the implementation's
+   from_value for every value it uses *)
+Definition str_eqb := list_eqb Z.eqb.
+Definition vtable := list (nat * Z * str).
+Fixpoint tfmt (tb : vtable) (i : nat) (x : Z) : str :=
+  match tb with
+  | [] => [ -1 ]
+  | (j, y, t) :: r => if Nat.eqb i j && (x =? y) then t else tfmt r i x
+  end.
+Fixpoint tparse (tb : vtable) (i : nat) (t : str) : Z :=
+  match tb with
+  | [] => -1
+  | (j, y, u) :: r => if Nat.eqb i j && str_eqb t u then y else tparse r i t
+  end.
+
+Definition oslot := option (Z * str).
+Definition oslot_eqb (a b : oslot) : bool :=
+  opt_eqb (fun x y => (fst x =? fst y) && str_eqb (snd x) (snd y)) a b.
+Definition slots_of (r : vrec str) : list oslot :=
+  map (option_map (fun n => (vn_id n, vn_text n))) (vr_slots r).
+
+Record vstep := mkvstep {
+  vs_required : bool; vs_slot : nat; vs_value : option Z;
+  vs_slots : list oslot;               (* node identity and printed text per property, after the assignment *)
+  vs_getters : list (option Z) }.      (* what every property reads, after the assignment *)
+Record vcase := mkvcase { vc_table : vtable; vc_init : list oslot; vc_next : Z; vc_steps : list vstep }.
+
+Definition vgetters (tb : vtable) (r : vrec str) : list (option Z) :=
+  map (fun i => vget (tparse tb) r i) (seq 0 (length (vr_slots r))).
+
+Fixpoint run_vsteps (tb : vtable) (r : vrec str) (steps : list vstep) : bool :=
+  match steps with
+  | [] => true
+  | st :: rest =>
+    let r' := if vs_required st
+              then match vs_value st with Some x => fst (req_set (tfmt tb) r (vs_slot st) x) | None => r end
+              else opt_set (tfmt tb) r (vs_slot st) (vs_value st) in
+    list_eqb oslot_eqb (slots_of r') (vs_slots st)
+    && list_eqb (opt_eqb Z.eqb) (vgetters tb r') (vs_getters st)
+    && run_vsteps tb r' rest
+  end.
+
+Definition check_vcase (c : vcase) : bool :=
+  run_vsteps (vc_table c)
+    (mkvrec (map (option_map (fun p => mkvnode (fst p) (snd p))) (vc_init c)) (vc_next c)) (vc_steps c).
